@@ -72,6 +72,18 @@ def pool(tier, seed):
                 sp["gw"] = {"method": "Constant", "dates": [sp["start"]], "values": [sp["gw"]["values"][0]]}
             if sp["irr"]["method"] == 3:
                 sp["irr"] = {"method": 0, "kw": {}, "schedule": None}
+        if i % 8 == 5:
+            # a step-wise table with many distinct observations (given as strings, repeated entries
+            # included): anything that depends on the order in which they are held shows
+            import datetime as dt
+
+            s0, e0 = S.d(sp["start"]), S.d(sp["end"])
+            span = max(40, min((e0 - s0).days - 1, 300))
+            offs = sorted(set(int(x) for x in rng.integers(1, span, 7)))
+            vals = [float(gen.pick(rng, [0.4, 0.6, 0.9, 1.2, 1.5])) + 0.01 * j for j in range(len(offs) + 1)]
+            dates = [sp["start"]] + [gen.fmt(s0 + dt.timedelta(days=o)) for o in offs]
+            sp["gw"] = {"method": gen.pick(rng, ["Constant", "Constant", "Variable"]),
+                        "dates": dates + [dates[2]], "values": vals + [vals[2]]}
         specs.append(sp)
     return specs
 
@@ -192,6 +204,14 @@ def cases(tier, seed):
             plan.insert(1, {"spec": sibling(specs[b], rng, SIBLING_KINDS[int(rng.integers(0, len(SIBLING_KINDS)))]),
                             "run": True, "idx": -1})
         out.append({"kind": "seq", "b": b, "plan": plan, "sibling": kind})
+    # interleaved: the member is stepped for a while, another model runs to its end, the member continues
+    nint = base.n_cases(40, 400, tier)
+    for j in range(nint):
+        b = (j * 3 + 1) % n
+        o = int(rng.integers(0, n))
+        other = specs[o] if j % 2 else sibling(specs[b], rng, SIBLING_KINDS[j % len(SIBLING_KINDS)])
+        out.append({"kind": "seq", "b": b, "interleaved": True,
+                    "plan": [{"spec": specs[b], "idx": b, "pause": {"steps": int(rng.integers(1, 400)), "spec": other}}]})
     nfs = base.n_cases(12, 100, tier)
     for j in range(nfs):
         b = (j * 7) % n
@@ -243,6 +263,8 @@ def run_case(case):
     else:
         out = fresh.run_plan(plan)
         cov["in_process_sequences"] += 1
+        if case.get("interleaved"):
+            cov["interleaved_sequences"] += 1
         if case.get("sibling"):
             cov["sibling_sequences"] += 1
             cov["sibling_" + case["sibling"]] += 1
@@ -250,7 +272,10 @@ def run_case(case):
         check_globals(out["globals"], acc, f"an in-process sequence in worker {os.getpid()}")
         for pos, (item, dg, st) in enumerate(zip(plan, out["digests"], out["status"])):
             if dg is not None:
-                digs.append((S.digest(item["spec"]), dg, f"worker/{len(plan)}-sequence/pos={pos}"))
+                digs.append((S.digest(item["spec"]), dg, f"worker/{len(plan)}-sequence/pos={pos}" + ("/interleaved" if item.get("pause") else "")))
+            elif st.startswith("error") and item.get("pause"):
+                acc.add("interleaved-run-fails", f"a model that is paused while another one runs does not complete: {st}",
+                        dict(status=st), dict())
     # within-case agreement
     seen = {}
     for k, dg, setting in digs:
